@@ -1,7 +1,329 @@
-(* C03 -- placeholder; theorems are added from proofs/ *)
-Require Import Coq.Lists.List Coq.NArith.NArith.
-From Mustache Require Import Res Manager.
+(* C03 -- every component instance is constructed once and destroyed once.
+   Function-level theorems about the lifecycle event log of Manager.v (tied to the code by the tier-B correspondence
+   of ./check C03), each for ALL states and inputs.  Proofs: proofs/LifecycleProofs.v.
+   The log is reversed (emit conses): `log s' = rev evs ++ log s` says that evs are the new events in time order.
+   Event lists used below (all defined in proofs/LifecycleProofs.v; `comps` is always `mitems mask`, duplicate-free):
+     dtor_events cis ai slot comps   one EvD at (ai, c, slot) per c in comps whose type has ci_destroy && ci_ev
+     ma_events cis ai src dst comps  one EvMA (ai,c,dst) <- (ai,c,src) per c whose type has ci_move && ci_ev
+     br_events cis ai idx ent rm comps   one EvBR at (ai,c,idx) with handle ent per c in rm whose type has ci_br
+     cd_events inf ai c slot h       construct_default: at most one EvC (ci_create && ci_ev), then at most one EvAA
+     move_events ...                 per destination component: EvMC from the source cell, or cd_events, or nothing
+     vacate_events cis ai idx last m dtor_events at idx if idx = last, else ma_events last -> idx ++ dtor_events at last
+     clear_events cis ai a           per such component, EvD at slots 0 .. am_size a - 1 (nothing if a has no members)
+     tmp_dtor_events cis k b         one EvD at PTmp k n per `AAssign _ cid n` of b whose type has ci_destroy && ci_ev *)
+Require Import Coq.Lists.List Coq.NArith.NArith Coq.ZArith.ZArith Coq.Bool.Bool.
+From Mustache Require Import Res Manager Palette.
+From Mustache.proofs Require Import LifecycleProofs.
 Import ListNotations.
-Example C03_placeholder : mitems 5%N = [0; 2].
-Proof. vm_compute. reflexivity. Qed.
-Print Assumptions C03_placeholder.
+
+(* ================================================================================================ *)
+(* 1. temporaries parked in command buffers                                                          *)
+
+(* (1a) recording an assign while locked appends exactly one temporary -- number `length tl` of buffer tid -- and the
+   command naming it; one EvC at that temporary iff the constructor is not skipped and the type has a logging create *)
+Theorem C03_assign_locked_creates_one_temporary : forall s tid h c sk s' n,
+  assign_locked s tid h c sk = Ok (s', n) ->
+  exists inf tl b,
+    nth_error (cinfos s) c = Some inf /\ nth_error (tmps s) tid = Some tl /\ nth_error (bufs s) tid = Some b /\
+    n = length tl /\
+    tmps s' = upd (tmps s) tid (tl ++ [tmp_value inf sk]) /\
+    bufs s' = upd (bufs s) tid (b ++ [AAssign h c n]) /\
+    log s' = assign_ctor_events inf sk (PTmp (epoch s * 64 + tid) n) ++ log s /\
+    cinfos s' = cinfos s /\ epoch s' = epoch s /\ archs s' = archs s.
+Proof. exact assign_locked_spec. Qed.
+Print Assumptions C03_assign_locked_creates_one_temporary.
+
+(* (1b) applyCommandPack: the primary place of every event it emits is an archetype cell (temporaries occur only as
+   the source of a move construction); it leaves buffers, temporaries, epoch and component table alone.
+   In particular it never constructs or destroys a temporary. *)
+Theorem C03_apply_pack_events_at_archetype_cells : forall tid s p s',
+  apply_pack tid s p = Ok s' ->
+  cinfos s' = cinfos s /\ epoch s' = epoch s /\ bufs s' = bufs s /\ tmps s' = tmps s /\
+  exists evs, log s' = evs ++ log s /\ Forall arch_ev evs.
+Proof. exact apply_pack_emits. Qed.
+Print Assumptions C03_apply_pack_events_at_archetype_cells.
+
+Theorem C03_apply_pack_no_temporary_lifecycle : forall tid s p s',
+  apply_pack tid s p = Ok s' ->
+  exists evs, log s' = evs ++ log s /\
+    forall pal k n, ~ In (EvD pal (PTmp k n)) evs /\ ~ In (EvC pal (PTmp k n)) evs /\ ~ In (EvV pal (PTmp k n)) evs.
+Proof. exact apply_pack_no_tmp_lifecycle. Qed.
+Print Assumptions C03_apply_pack_no_temporary_lifecycle.
+
+(* (1c) applyStorage of buffer b of thread tid: pack events pk (archetype cells only), then the destructor pass over
+   the WHOLE buffer in buffer order -- applied pack or skipped pack (dead target) makes no difference *)
+Theorem C03_apply_storage_destroys_buffer_temporaries : forall s tid b s',
+  apply_storage s (tid, b) = Ok s' ->
+  cinfos s' = cinfos s /\ epoch s' = epoch s /\ bufs s' = bufs s /\ tmps s' = tmps s /\
+  exists pk, Forall arch_ev pk /\
+    log s' = rev (tmp_dtor_events (cinfos s) (epoch s * 64 + tid) b) ++ pk ++ log s.
+Proof. exact apply_storage_spec. Qed.
+Print Assumptions C03_apply_storage_destroys_buffer_temporaries.
+
+(* (1d, 2) flush: buffers and temporaries emptied, epoch advanced; its destructor events at temporaries are exactly
+   the final passes, buffer after buffer *)
+Theorem C03_flush_empties_buffers_and_advances_epoch : forall s s',
+  flush s = Ok s' ->
+  bufs s' = map (fun _ => []) (bufs s) /\ tmps s' = map (fun _ => []) (tmps s) /\
+  epoch s' = S (epoch s) /\ cinfos s' = cinfos s /\
+  exists evs, log s' = rev evs ++ log s /\
+    filter is_tmp_dtor evs = flush_tmp_dtors (cinfos s) (epoch s) (combine (seq 0 (length (bufs s))) (bufs s)).
+Proof. exact flush_spec. Qed.
+Print Assumptions C03_flush_empties_buffers_and_advances_epoch.
+
+(* (1e) CONCLUSION: a temporary parked in buffer tid is destroyed exactly once by the flush (if its type has a logging
+   destroy function; never otherwise), whatever became of the entity it was recorded for *)
+Theorem C03_flush_destroys_each_temporary_once : forall s s' tid b h cid n inf,
+  tmps_wf s -> flush s = Ok s' ->
+  nth_error (bufs s) tid = Some b -> In (AAssign h cid n) b -> nth_error (cinfos s) cid = Some inf ->
+  exists evs, log s' = rev evs ++ log s /\
+    filter (is_dtor_at (PTmp (epoch s * 64 + tid) n)) evs =
+    if ci_destroy inf && ci_ev inf then [EvD (ci_pal inf) (PTmp (epoch s * 64 + tid) n)] else [].
+Proof. exact flush_destroys_temporary_once_wf. Qed.
+Print Assumptions C03_flush_destroys_each_temporary_once.
+
+(* the numbering invariant tmps_wf (the assign commands of a buffer name temporaries 0,1,2,... of that buffer, one
+   each) holds initially and is kept by every primitive that touches buffers: recording, lock, flush *)
+Theorem C03_buffer_numbering_invariant :
+  (forall n cis, tmps_wf (init n cis)) /\
+  (forall s tid h c sk s' n, tmps_wf s -> assign_locked s tid h c sk = Ok (s', n) -> tmps_wf s') /\
+  (forall s tid c s', (match c with AAssign _ _ _ => False | _ => True end) -> tmps_wf s -> push_cmd s tid c = Ok s' -> tmps_wf s') /\
+  (forall s tid n v s', tmps_wf s -> write_tmp s tid n v = Ok s' -> tmps_wf s') /\
+  (forall s, tmps_wf s -> tmps_wf (do_lock s)) /\
+  (forall s s', tmps_wf s -> flush s = Ok s' -> tmps_wf s').
+Proof.
+  exact (conj tmps_wf_init (conj tmps_wf_assign_locked (conj tmps_wf_push_cmd (conj tmps_wf_write_tmp
+         (conj tmps_wf_do_lock tmps_wf_flush))))).
+Qed.
+Print Assumptions C03_buffer_numbering_invariant.
+
+(* (2) with at most 64 threads, places of temporaries of different lock periods (epochs) never coincide;
+   within one period, different buffers never share a place *)
+Theorem C03_temporary_places_of_different_epochs_differ : forall ep ep' tid tid' n n',
+  tid < 64 -> tid' < 64 -> ep <> ep' -> PTmp (ep * 64 + tid) n <> PTmp (ep' * 64 + tid') n'.
+Proof. exact tmp_places_distinct. Qed.
+Print Assumptions C03_temporary_places_of_different_epochs_differ.
+
+Theorem C03_temporary_places_of_different_buffers_differ : forall ep tid tid' n n',
+  tid <> tid' -> PTmp (ep * 64 + tid) n <> PTmp (ep * 64 + tid') n'.
+Proof. exact tmp_places_distinct_tid. Qed.
+Print Assumptions C03_temporary_places_of_different_buffers_differ.
+
+(* ================================================================================================ *)
+(* 3. destruction of occupied slots                                                                 *)
+
+Theorem C03_call_destructor_events : forall s ai slot s',
+  call_destructor s ai slot = Ok s' ->
+  exists a, nth_error (archs s) ai = Some a /\
+    log s' = rev (dtor_events (cinfos s) ai slot (mitems (am_mask a))) ++ log s.
+Proof. exact call_destructor_events. Qed.
+Print Assumptions C03_call_destructor_events.
+
+(* what dtor_events contains: exactly one EvD per component with a logging destroy function, and nothing else *)
+Theorem C03_slot_destroyed_once_per_component : forall cis ai slot comps c inf,
+  NoDup comps -> In c comps -> nth_error cis c = Some inf ->
+  filter (is_dtor_at (PArch ai c slot)) (dtor_events cis ai slot comps) =
+  if ci_destroy inf && ci_ev inf then [EvD (ci_pal inf) (PArch ai c slot)] else [].
+Proof. exact dtor_events_once. Qed.
+Print Assumptions C03_slot_destroyed_once_per_component.
+
+Theorem C03_slot_destruction_emits_nothing_else : forall cis ai slot comps,
+  Forall (fun e => exists pal c, e = EvD pal (PArch ai c slot) /\ In c comps) (dtor_events cis ai slot comps).
+Proof. exact dtor_events_only. Qed.
+Print Assumptions C03_slot_destruction_emits_nothing_else.
+
+Theorem C03_mask_items_are_duplicate_free : forall m, NoDup (mitems m).
+Proof. exact mitems_NoDup. Qed.
+Print Assumptions C03_mask_items_are_duplicate_free.
+
+(* Archetype::clear and clearArchetype *)
+Theorem C03_arch_clear_events : forall s ai s',
+  arch_clear s ai = Ok s' ->
+  exists a, nth_error (archs s) ai = Some a /\ log s' = rev (clear_events (cinfos s) ai a) ++ log s.
+Proof. exact arch_clear_events_log. Qed.
+Print Assumptions C03_arch_clear_events.
+
+Theorem C03_clear_archetype_events : forall s ai s',
+  clear_archetype s ai = Ok s' ->
+  exists a, nth_error (archs s) ai = Some a /\ log s' = rev (clear_events (cinfos s) ai a) ++ log s.
+Proof. exact clear_archetype_events_log. Qed.
+Print Assumptions C03_clear_archetype_events.
+
+(* slots 0 .. am_size-1 of every component with a logging destroy function exactly once, nothing else *)
+Theorem C03_clear_destroys_each_slot_once : forall cis ai a c i inf,
+  am_ents a <> [] -> In c (mitems (am_mask a)) -> i < am_size a -> nth_error cis c = Some inf ->
+  filter (is_dtor_at (PArch ai c i)) (clear_events cis ai a) =
+  if ci_destroy inf && ci_ev inf then [EvD (ci_pal inf) (PArch ai c i)] else [].
+Proof. exact clear_events_once. Qed.
+Print Assumptions C03_clear_destroys_each_slot_once.
+
+Theorem C03_clear_emits_nothing_else : forall cis ai a,
+  Forall (fun e => exists pal c i, e = EvD pal (PArch ai c i) /\ In c (mitems (am_mask a)) /\ i < am_size a)
+         (clear_events cis ai a).
+Proof. exact clear_events_only. Qed.
+Print Assumptions C03_clear_emits_nothing_else.
+
+(* EntityManager::clear: each archetype cleared once, in index order, as it was before the call *)
+Theorem C03_clear_all_events : forall s s',
+  clear_all s = Ok s' ->
+  log s' = rev (flat_map (arch_clear_events (cinfos s) (archs s)) (seq 0 (length (archs s)))) ++ log s.
+Proof. exact clear_all_events_log. Qed.
+Print Assumptions C03_clear_all_events.
+
+(* ~World with possibly non-empty command buffers: archetypes cleared, then every parked temporary destroyed *)
+Theorem C03_teardown_events : forall s s' r,
+  step s OTeardown = Ok (s', r) ->
+  log s' = rev (flush_tmp_dtors (cinfos s) (epoch s) (combine (seq 0 (length (bufs s))) (bufs s))) ++
+           rev (flat_map (arch_clear_events (cinfos s) (archs s)) (seq 0 (length (archs s)))) ++ log s.
+Proof. exact teardown_spec. Qed.
+Print Assumptions C03_teardown_events.
+
+(* what flush_tmp_dtors contains (shared by flush and teardown): each parked temporary exactly once *)
+Theorem C03_parked_temporary_destroyed_once : forall cis ep bs tid b h cid n inf,
+  nth_error bs tid = Some b -> NoDup (assign_nums b) -> In (AAssign h cid n) b -> nth_error cis cid = Some inf ->
+  filter (is_dtor_at (PTmp (ep * 64 + tid) n)) (flush_tmp_dtors cis ep (combine (seq 0 (length bs)) bs)) =
+  if ci_destroy inf && ci_ev inf then [EvD (ci_pal inf) (PTmp (ep * 64 + tid) n)] else [].
+Proof. exact flush_tmp_dtors_once. Qed.
+Print Assumptions C03_parked_temporary_destroyed_once.
+
+(* ================================================================================================ *)
+(* 4. moving an entity between archetypes                                                           *)
+
+Theorem C03_internal_move_events : forall s ai src dst s',
+  internal_move s ai src dst = Ok s' ->
+  exists a, nth_error (archs s) ai = Some a /\
+    log s' = rev (ma_events (cinfos s) ai src dst (mitems (am_mask a)) ++
+                  dtor_events (cinfos s) ai src (mitems (am_mask a))) ++ log s.
+Proof. exact internal_move_events_log. Qed.
+Print Assumptions C03_internal_move_events.
+
+(* arch_remove: beforeRemove only for components outside skip_on_remove; then the slot is vacated *)
+Theorem C03_arch_remove_events : forall s ai idx h skip s',
+  arch_remove s ai idx h skip = Ok s' ->
+  exists a last, nth_error (archs s) ai = Some a /\ am_size a = S last /\
+    log s' = rev (br_events (cinfos s) ai idx (br_ent (cinfos s) a idx h) (minter (am_mask a) (minverse skip)) (mitems (am_mask a)) ++
+                  vacate_events (cinfos s) ai idx last (am_mask a)) ++ log s.
+Proof. exact arch_remove_events_log. Qed.
+Print Assumptions C03_arch_remove_events.
+
+(* external_move of the entity at (prev, pidx) into the next free slot of archetype ai:
+   per destination component -- present in the source: one EvMC from the source cell (iff ci_mctor && ci_ev);
+   absent: construct_default unless in the skip mask; then beforeRemove for the source components that do NOT
+   survive (not in the destination mask), then the source slot is vacated (swap with the last slot).
+   All other archetypes are untouched. *)
+Theorem C03_external_move_events : forall s ai h prev pidx skip s',
+  external_move s ai h prev pidx skip = Ok s' ->
+  exists a pa last pent, ai <> prev /\ nth_error (archs s) ai = Some a /\ nth_error (archs s) prev = Some pa /\
+    am_size pa = S last /\ nth_error (am_ents pa) pidx = Some pent /\
+    log s' = rev (move_events (cinfos s) ai (length (am_ents a)) prev pidx h skip (am_mask pa) (mitems (am_mask a)) ++
+                  br_events (cinfos s) prev pidx pent (minter (am_mask pa) (minverse (am_mask a))) (mitems (am_mask pa)) ++
+                  vacate_events (cinfos s) prev pidx last (am_mask pa)) ++ log s /\
+    (forall i, i <> ai -> i <> prev -> nth_error (archs s') i = nth_error (archs s) i).
+Proof. exact external_move_events_log. Qed.
+Print Assumptions C03_external_move_events.
+
+(* no event of an external move mentions a slot other than the new slot, the vacated slot and the last slot of the
+   source archetype (the one swap-moved into the hole) *)
+Theorem C03_external_move_touches_three_slots : forall cis ai idx prev pidx last h skip pm am pent,
+  Forall (only_slots [(ai, idx); (prev, pidx); (prev, last)])
+    (move_events cis ai idx prev pidx h skip pm (mitems am) ++
+     br_events cis prev pidx pent (minter pm (minverse am)) (mitems pm) ++
+     vacate_events cis prev pidx last pm).
+Proof. exact external_move_events_slots. Qed.
+Print Assumptions C03_external_move_touches_three_slots.
+
+(* ================================================================================================ *)
+(* Examples: the hypotheses are satisfiable on concrete states, and the event lists are what one expects.
+   Components: 0 trivial, 1 instrumented (palette 2), 2 instrumented with afterAssign/beforeRemove (palette 3). *)
+Ltac ex_tac := repeat (match goal with |- _ /\ _ => split; [vm_compute; reflexivity|] end); vm_compute; reflexivity.
+Fixpoint run (s : mst) (ops : list op) : res mst :=
+  match ops with [] => Ok s | o :: t => do r <- step s o; run (fst r) t end.
+Definition get (r : res mst) : mst := match r with Ok s => s | Err _ => init 0 [] end.
+Definition new_log (s s' : mst) : list event := firstn (length (log s') - length (log s)) (log s').
+Definition cis3 : list cinfo := [pal_info 0 0; pal_info 2 0; pal_info 3 0].
+Definition h (i : N) : handle := (i, 0%N).
+
+(* archetype 0 = {0,1,2} with entities 0,1,2; archetype 1 = {1} with entity 3 *)
+Definition sA : mst := get (run (init 2 cis3)
+  [OCreate 0 7%N [] false; OCreate 0 7%N [] false; OCreate 0 7%N [] false; OCreate 0 2%N [] false]).
+(* locked; thread 1 records an assign for entity 3, thread 0 a destroy of entity 1, thread 1 an assign with a value for
+   entity 1 (dead by the time thread 1's buffer is applied), an assign of a component entity 0 already has, and a trivial one *)
+Definition sB : mst := get (run sA
+  [OLock; OAssign 1 (h 3) 2 ADefault false; ODestroyNow 0 (h 1); OAssign 1 (h 1) 2 (AValue 5%Z) true;
+   OAssign 1 (h 0) 1 ADefault false; OAssign 1 (h 3) 0 ADefault false]).
+
+Example C03_ex_states :
+  map am_ents (archs sA) = [[h 0; h 1; h 2]; [h 3]] /\ map am_mask (archs sA) = [7%N; 2%N] /\
+  bufs sB = [[ADestroyNow (h 1)]; [AAssign (h 3) 2 0; AAssign (h 1) 2 1; AAssign (h 0) 1 2; AAssign (h 3) 0 3]] /\
+  tmps sB = [[]; [Some 1003%Z; Some 5%Z; Some 1002%Z; None]] /\ lockc sB = 1 /\ epoch sB = 0.
+Proof. vm_compute. repeat split. Qed.
+
+Example C03_ex_assign_locked : exists s',
+  assign_locked sB 1 (h 2) 1 false = Ok (s', 4) /\ new_log sB s' = [EvC 2 (PTmp 1 4)].
+Proof. eexists. ex_tac. Qed.
+
+Example C03_ex_tmps_wf : tmps_wf sB.
+Proof. unfold tmps_wf. vm_compute. repeat constructor. Qed.
+
+(* the flush of sB: the temporary recorded for the dead entity 1 (number 1) is destroyed exactly once all the same *)
+Example C03_ex_flush : exists s' b inf,
+  flush sB = Ok s' /\ nth_error (bufs sB) 1 = Some b /\ In (AAssign (h 1) 2 1) b /\ nth_error (cinfos sB) 2 = Some inf /\
+  is_valid sB (h 1) = true /\ is_valid s' (h 1) = false /\
+  filter is_tmp_dtor (rev (new_log sB s')) = [EvD 3 (PTmp 1 0); EvD 3 (PTmp 1 1); EvD 2 (PTmp 1 2)] /\
+  epoch s' = 1 /\ bufs s' = [[]; []] /\ tmps s' = [[]; []].
+Proof.
+  eexists. eexists. eexists. split; [vm_compute; reflexivity|]. split; [vm_compute; reflexivity|].
+  split; [vm_compute; tauto|]. split; [vm_compute; reflexivity|]. vm_compute. repeat split.
+Qed.
+
+Example C03_ex_apply_pack : exists s',
+  apply_pack 1 sB [AAssign (h 3) 2 0] = Ok s' /\
+  new_log sB s' = [EvAA 3 (PArch 2 2 0) (h 3); EvMC 3 (PArch 2 2 0) (PTmp 1 0); EvD 2 (PArch 1 1 0); EvMC 2 (PArch 2 1 0) (PArch 1 1 0)].
+Proof. eexists. ex_tac. Qed.
+
+Example C03_ex_apply_storage : exists s', apply_storage sB (1, nth 1 (bufs sB) []) = Ok s'.
+Proof. eexists. vm_compute. reflexivity. Qed.
+
+Example C03_ex_call_destructor : exists s',
+  call_destructor sA 0 2 = Ok s' /\ new_log sA s' = [EvD 3 (PArch 0 2 2); EvD 2 (PArch 0 1 2)].
+Proof. eexists. ex_tac. Qed.
+
+Example C03_ex_slot_once : NoDup (mitems 7%N) /\ In 1 (mitems 7%N) /\ nth_error cis3 1 = Some (pal_info 2 0).
+Proof. split; [apply mitems_NoDup|]. vm_compute. tauto. Qed.
+
+Example C03_ex_clear : exists s' s'' s''',
+  arch_clear sA 0 = Ok s' /\ length (new_log sA s') = 6 /\
+  clear_archetype sA 0 = Ok s'' /\ clear_all sA = Ok s''' /\ length (new_log sA s''') = 7.
+Proof. eexists. eexists. eexists. ex_tac. Qed.
+
+Example C03_ex_clear_once : exists a,
+  nth_error (archs sA) 0 = Some a /\ am_ents a <> [] /\ In 2 (mitems (am_mask a)) /\ 1 < am_size a /\
+  nth_error cis3 2 = Some (pal_info 3 0).
+Proof. eexists. split; [vm_compute; reflexivity|]. vm_compute. repeat split; try discriminate; auto. Qed.
+
+Example C03_ex_teardown : exists s' r,
+  step sB OTeardown = Ok (s', r) /\
+  filter is_tmp_dtor (rev (new_log sB s')) = [EvD 3 (PTmp 1 0); EvD 3 (PTmp 1 1); EvD 2 (PTmp 1 2)] /\
+  length (new_log sB s') = 10.
+Proof. eexists. eexists. ex_tac. Qed.
+
+Example C03_ex_parked_once : exists b,
+  nth_error (bufs sB) 1 = Some b /\ NoDup (assign_nums b) /\ In (AAssign (h 1) 2 1) b /\ nth_error cis3 2 = Some (pal_info 3 0).
+Proof.
+  eexists. split; [vm_compute; reflexivity|]. split; [|vm_compute; tauto].
+  vm_compute. repeat constructor; simpl; intuition discriminate.
+Qed.
+
+(* entity 0 moves from archetype 0 = {0,1,2} (slot 0 of 3) to archetype 1 = {1}: component 1 is move-constructed,
+   component 2 does not survive (beforeRemove), the last slot is swap-moved into the hole and then destroyed *)
+Example C03_ex_external_move : exists s',
+  external_move sA 1 (h 0) 0 0 0%N = Ok s' /\
+  rev (new_log sA s') = [EvMC 2 (PArch 1 1 1) (PArch 0 1 0); EvBR 3 (PArch 0 2 0) (h 0);
+                         EvMA 2 (PArch 0 1 0) (PArch 0 1 2); EvMA 3 (PArch 0 2 0) (PArch 0 2 2);
+                         EvD 2 (PArch 0 1 2); EvD 3 (PArch 0 2 2)].
+Proof. eexists. ex_tac. Qed.
+
+Example C03_ex_arch_remove_internal_move : exists s' s'',
+  arch_remove sA 0 1 (h 1) 0%N = Ok s' /\ length (new_log sA s') = 5 /\
+  internal_move sA 0 2 0 = Ok s'' /\ length (new_log sA s'') = 4.
+Proof. eexists. eexists. ex_tac. Qed.
